@@ -19,7 +19,12 @@ struct RunResult {
 	bool        fault_fired = false;
 	u64         hash_full = 0, hash_obs = 0;
 	int         ops_executed = 0, ops_skipped = 0;
+	struct Extra {
+		std::string inv, detail, property;
+	};
+	std::vector<Extra> extra;  // further, different violations recorded in the same step
 	std::string signature() const { return variant + "|" + fault_name(fault_kind) + "|" + inv; }
+	std::string signature_of(Extra const& x) const { return variant + "|" + fault_name(fault_kind) + "|" + x.inv; }
 };
 
 struct Stats {
